@@ -100,6 +100,9 @@ def structural_update0(op, tree_tpl, parallel=False):
         return {}
     if o in ('add', 'addex'):
         return {'agents': {'_add': [{'key': op['k'], 'state': {'v': {'x': op.get('x0', 0)}}}]}}
+    if o in ('del', 'delpath') and op.get('via') == 'root':
+        # the same deletion named by a path of two elements, sent to the root
+        return {'root': {'_delete': [('agents', op['k'])]}}
     if o == 'del':
         return {'agents': {'_delete': [op['k']]}}
     if o == 'delpath':
@@ -175,7 +178,7 @@ class Director(Process):
 
     def ports_schema(self):
         return {'agents': glob(), 'pool': glob(),
-                'leaves': copy.deepcopy(LEAVES)}
+                'leaves': copy.deepcopy(LEAVES), 'root': {'_output': True}}
 
     def next_update(self, timestep, states):
         LOG.append((self.MODE + 'director', copy.deepcopy(states)))
@@ -361,7 +364,7 @@ def run_history(ops, initial=(), parallel=False, via_composite=False):
     sdirector.par = parallel
     watch = any(b == 'agents' and k == 'a' for b, k, _t, _x in initial)
     processes = {'director': director, 'observer': Observer({'watch': watch})}
-    dtopo = {'agents': ('agents',), 'pool': ('pool',), 'leaves': ('leaves',)}
+    dtopo = {'agents': ('agents',), 'pool': ('pool',), 'leaves': ('leaves',), 'root': ()}
     topology = {'director': dict(dtopo),
                 'observer': {'ag': ('agents',), 'g': ('glob',), 'out': ('outs',)},
                 'zdirector': dict(dtopo),
@@ -613,6 +616,8 @@ def random_history(rng, length, initial_model, **kw):
             op['noise'] = rng.choice([1, 2])
         if op['op'] == 'div' and rng.random() < 0.5:
             op['keyonly'] = True
+        if op['op'] in ('del', 'delpath') and rng.random() < 0.4:
+            op['via'] = 'root'
         ops.append(op)
         if op['op'] == 'addex':
             break
